@@ -218,23 +218,29 @@ fn layer4_stream(k: u32, chunk: u32, chunks: &std::ops::Range<u32>, st: &Stats) 
     let c = enc.verif_intermediate_symbols();
     rfcref::check_intermediate(k, &src, &c)?;
     let total = (1u32 << 24) - k;
-    let err: std::sync::Mutex<Option<String>> = std::sync::Mutex::new(None);
+    let err: std::sync::Mutex<Option<(u32, String)>> = std::sync::Mutex::new(None);
+    let set_err = |pos: u32, m: String| {
+        let mut e = err.lock().unwrap();
+        if e.as_ref().map(|x| pos < x.0).unwrap_or(true) {
+            *e = Some((pos, m));
+        }
+    };
     let n = std::sync::atomic::AtomicU64::new(0);
     let work: Vec<u32> = chunks.clone().collect();
     par_for(work.len(), |w| {
         let s = work[w] * chunk;
-        if s >= total || err.lock().unwrap().is_some() {
+        if s >= total || err.lock().unwrap().as_ref().map(|x| x.0 < s).unwrap_or(false) {
             return;
         }
         let cnt = chunk.min(total - s);
         match guarded(|| enc.repair_packets(s, cnt)) {
-            Err(e) => *err.lock().unwrap() = Some(format!("K={}: repair_packets({}, {}) panicked: {}", k, s, cnt, e)),
+            Err(e) => set_err(s, format!("K={}: repair_packets({}, {}) panicked: {}", k, s, cnt, e)),
             Ok(pk) => {
                 for (i, x) in pk.iter().enumerate() {
                     let esi = k + s + i as u32;
                     let want = ref_symbol(&p, k, &c, esi);
                     if x.payload_id().encoding_symbol_id() != esi || x.data() != &want[..] {
-                        *err.lock().unwrap() = Some(format!("K={}: repair ESI {} = {:?} (id {}), reference {:?}", k, esi, x.data(), x.payload_id().encoding_symbol_id(), want));
+                        set_err(s + i as u32, format!("K={}: repair ESI {} = {:?} (id {}), reference {:?}", k, esi, x.data(), x.payload_id().encoding_symbol_id(), want));
                         return;
                     }
                 }
@@ -244,7 +250,7 @@ fn layer4_stream(k: u32, chunk: u32, chunks: &std::ops::Range<u32>, st: &Stats) 
     });
     let _ = st;
     if let Some(e) = err.into_inner().unwrap() {
-        return Err(e);
+        return Err(e.1);
     }
     Ok(n.load(std::sync::atomic::Ordering::Relaxed))
 }
